@@ -19,7 +19,7 @@ RULE = ('directories of 2-4 files drawn from {valid RP66V1 x2 (the second indexe
         'as a channel), valid LIS, valid BIT, LAS, DAT, empty file, 5 damaged variants per valid file (label / first record / '
         'mid table / mid data / truncated)} with the bad file at every position, names chosen so that alphabetical and size order '
         'differ; channel set {none, {GR}}; converter {RP66V1, LIS, BIT}; per directory: sequential run, each file alone, every set '
-        'partition of the task list into <= 3 workers; plus output-name collision pairs. A state of the search is a node of the '
+        'partition of the task list into <= 3 workers; plus output-name collision pairs and, per converter, one batch of 72 (thorough: 140) valid files + 1 bad run sequentially, on one worker and on two. A state of the search is a node of the '
         'schedule tree (tasks done per worker); non-trivial = a directory holding a bad file or more than one valid file')
 ASSUMPTIONS = ['the creation-time line (CREA.) and the elapsed time field of the result are excluded from comparisons',
                'a virtual pool worker executes one task at a time; two tasks never write the same file unless their output names collide, which is enumerated separately',
@@ -58,7 +58,7 @@ def _valid(kind):
         with open(os.path.join(seams.REPO, 'example_data', 'LIS', 'data', 'DILLSON-1_WELL_LOGS_FILE-013.LIS'), 'rb') as f:
             return f.read()
     if kind == 'V1b':
-        return c11.rp66_source({'n': 3, 'params': ['STAT', 'APIN', 'LOC ']})[0]   # same PARAMETER set name as V1, other objects in another order
+        return c11.rp66_source({'n': 3, 'params': ['STAT', 'APIN', 'LOC '], 'sul': {'maxlen': 4096, 'seq': 20}})[0]   # same PARAMETER set name as V1, other objects in another order
     if kind == 'Lb':
         return c11.lis_source({'n': 4})[0]
     if kind == 'Bb':
@@ -280,8 +280,12 @@ def explore_directory(case, res, workdir, tier):
     tasks = task_order(dir_in)
     nsched = 0
     outcomes = {h64(repr((sorted(seq_res.items()), sorted(seq_out.items()))))}
-    schedules = [(a, max(a) + 1 if a else 1) for a in env.set_partitions(len(tasks), maxw)]
-    if tasks:
+    if case.get('many'):
+        # a long batch: what the k-th file of one process gets must not depend on k (queues, caches and handles that fill up)
+        schedules = [([0] * len(tasks), 1), ([i % 2 for i in range(len(tasks))], 2)]
+    else:
+        schedules = [(a, max(a) + 1 if a else 1) for a in env.set_partitions(len(tasks), maxw)]
+    if tasks and not case.get('many'):
         # more workers asked for than there are files (the statement's worker counts go to 16): every task on its own worker
         schedules.append((list(range(len(tasks))), 16))
     for assignment, jobs in schedules:
@@ -370,6 +374,10 @@ def gen_cases(tier):
                 yield {'tool': tool, 'files': [['a.lis', 'L'], ['b.lis', 'LX:' + c], ['c.lis', 'Lb']], 'channels': []}
         # output name collisions
         yield {'tool': tool, 'files': [['a' + EXT[g0], g0], ['a' + EXT[g0].upper(), gb]], 'channels': []}
+        # a long batch handled by one process (sequential run, one worker, two workers)
+        nmany = 72 if tier == 'quick' else 140
+        yield {'tool': tool, 'many': True, 'channels': [],
+               'files': [['f%03d%s' % (i, EXT[g0]), (g0, g1)[i % 2]] for i in range(nmany)] + [['zbad' + EXT[g0], '%s:trunc' % g0]]}
         yield {'tool': tool, 'files': [['a' + EXT[g0], g0], ['a.001', gb]], 'channels': []}
         yield {'tool': tool, 'files': [['a' + EXT[g0], g0], ['sub/a' + EXT[g0], gb]], 'channels': []}
 
